@@ -117,6 +117,14 @@ Section C19.
   End AfterNegotiation.
 End C19.
 
+(** the Spec does not see the order of the members of attributes / relationships / links objects
+    (the equivalence modulo which the check compares model and implementation): agreement modulo
+    [wbody_equiv] transfers the oracle's verdict *)
+Theorem C19_respects_equiv : forall pmt sch rq st ct bd bd',
+  wbody_equiv bd bd' ->
+  oracle pmt sch rq (Some (st, ct, Some bd)) = oracle pmt sch rq (Some (st, ct, Some bd')).
+Proof. exact oracle_respects_equiv. Qed.
+
 (** the handler's tests of Accept headers and query parameter names are the Spec's grammars *)
 Theorem C19_accept_negotiation : forall pmt lines,
   is_acceptable pmt (accept_instances fixed lines) = acceptable pmt lines.
@@ -162,6 +170,7 @@ Print Assumptions C19_ja_ref_status.
 Print Assumptions C19_ja_resource_identity.
 Print Assumptions C19_ja_fetch_identity.
 Print Assumptions C19_model_satisfies_spec.
+Print Assumptions C19_respects_equiv.
 Print Assumptions C19_ja_406.
 Print Assumptions C19_ja_400_params.
 Print Assumptions C19_ja_404.
